@@ -108,6 +108,48 @@ pub fn run(a: &Args) {
         o.count("wide-frames");
         check_apng(&mut o, &b, &mut rng);
     }
+    // frame widths going down and up again under an allocation limit: the reader-owned row buffer is charged once at its largest size, so a
+    // valid animation of alternating full-canvas and small frames must not run out of Limits::bytes however long it is
+    for (cw, chh, bpp_color, limit, nframes) in [(2048u32, 3u32, 6u8, 40_000usize, 13u32), (1500, 2, 2, 30_000, 25), (4000, 1, 0, 24_000, if thorough { 60 } else { 21 })] {
+        use crate::pngbuild::*;
+        let bytes_pp = match bpp_color { 6 => 4usize, 2 => 3, _ => 1 };
+        let mut chunks = vec![ihdr(cw, chh, 8, bpp_color, 0), actl_chunk(nframes, 0)];
+        let mut seq = 0u32;
+        let mut expect: Vec<(u32, u32, Vec<u8>)> = vec![];
+        for f in 0..nframes {
+            let (fw, fh) = if f % 2 == 0 { (cw, chh) } else { (1 + f % 7, 1) };
+            let mut raw = vec![];
+            let mut px = vec![];
+            for r in 0..fh { raw.push(0u8); let row: Vec<u8> = (0..fw as usize * bytes_pp).map(|i| (i as u8).wrapping_mul(3).wrapping_add((f as u8).wrapping_mul(11)).wrapping_add(r as u8)).collect(); raw.extend(&row); px.extend(&row); }
+            let z = zlib_flate2(&raw, 6);
+            chunks.push(fctl_chunk(seq, fw, fh, 0, 0, 1, 10, 0, 0)); seq += 1;
+            if f == 0 { chunks.push(Chunk::new(b"IDAT", z)); } else { chunks.push(fdat_chunk(seq, &z)); seq += 1; }
+            expect.push((fw, fh, px));
+        }
+        chunks.push(Chunk::new(b"IEND", vec![]));
+        let bytes = assemble(&chunks);
+        let name = format!("alternating-widths-{}x{}-c{}-limit{}-x{}", cw, chh, bpp_color, limit, nframes);
+        o.mark(&format!("apng under limit {}", name));
+        let r = guarded(|| -> Result<usize, String> {
+            let mut d = png::Decoder::new(std::io::Cursor::new(&bytes));
+            d.set_limits(png::Limits { bytes: limit });
+            d.set_transformations(png::Transformations::IDENTITY);
+            let mut rd = d.read_info().map_err(|e| format!("read_info: {}", e))?;
+            let mut buf = vec![0x5Au8; rd.output_buffer_size()];
+            for (k, (fw, fh, px)) in expect.iter().enumerate() {
+                let oi = rd.next_frame(&mut buf).map_err(|e| format!("frame {} of {} ({}x{}): {}", k, expect.len(), fw, fh, e))?;
+                if (oi.width, oi.height) != (*fw, *fh) || buf[..oi.buffer_size()] != px[..] { return Err(format!("frame {}: wrong geometry or pixels", k)); }
+            }
+            match rd.next_frame(&mut buf) { Err(_) => Ok(expect.len()), Ok(_) => Err("a frame beyond the last one was delivered".into()) }
+        });
+        o.direct_checks += 1;
+        o.count("alternating-widths-under-limit");
+        match r {
+            Ok(Ok(_)) => {}
+            Ok(Err(e)) => o.violation(viol("valid-animation-not-delivered-under-the-limit", vec![("file", jstr(&name)), ("limit", limit.to_string()), ("why", jstr(&e))])),
+            Err(m) => o.violation(viol("panic-decoding-valid-animation", vec![("file", jstr(&name)), ("panic", jstr(&m))])),
+        }
+    }
     // frames a little above 32 / 64 / 128 KiB of highly compressible data: the last rows of a frame are released only with the flush at the
     // chunk behind the frame's data (the frame has then to be counted all the same, and end-of-image reported after the last one)
     for (w, producer, nframes) in [(63u32, 0u8, 2u32), (63, 1, 3), (31, 0, 3), (15, 2, 2), (127, 0, 2)] {
